@@ -8,7 +8,7 @@ CLAIMED = {
  "C01": ("Bounded model checking by symbolic execution of the real go/ssa: for every byte string of length 0..1536, every capacity and every content, no panic / non-terminating loop / reslice beyond the visible length is reachable in Session.Parse, the Frame accessors and every zero-argument getter of every exported view type; violations come with a natively replayed input.",
          "Trusted: go/ssa construction, the gse executor semantics (intrinsics/stubs listed in the evidence), z3. Bounds: frames <= 1536 B, loops <= 64 (300) iterations, option-walking views restricted to short inputs (see evidence.bounds).",
          "DESIGN.md §4 C01", "bounded symbolic execution of go/ssa, SMT-decided obligations (z3/cvc5), native replay"),
- "C15": ("Bounded model checking: Checksum is shown equal to the RFC 1071 one's-complement checksum for every content and every length in the tier bound by induction on the length (base case + one SMT-discharged step per length, from the real SSA), cross-checked by direct equivalence for short lengths; IPv4 headers completed by SetPayload/AppendPayload sum to zero under an independent reference for every field value and payload length.",
+ "C15": ("Bounded model checking: Checksum is shown equal to the RFC 1071 one's-complement checksum for every content and every length in the tier bound by induction on the length (base case + one SMT-discharged step per length, from the real SSA), cross-checked by direct equivalence for short lengths; IPv4 headers completed by SetPayload/AppendPayload sum to zero under an independent reference for every field value, payload length and stale content of the checksum field (fresh, reused and twice-completed headers).",
          "Trusted: go/ssa, gse semantics, z3/cvc5 (portfolio), the cut-point generalisation argument (unsat of the generalised query implies unsat of the original). Bound: lengths 0..128 quick / 0..1522 thorough. ICMP message completions are decided under C07.",
          "DESIGN.md §4 C15", "induction on length with cut-point generalisation over go/ssa terms, SMT (z3 fresh-context, cvc5/z3-int portfolio)"),
  "C02": ("Bounded model checking, differential: the real Session.Parse and the real field getters are executed symbolically next to an independent RFC reference decoder / RFC-position extractors; for every frame of length 0..1536 (all contents, so every EtherType, protocol, port pair and length field) PayloadID, MACs, IPs, ports, presence and offsets of the IPv4/IPv6/UDP/TCP views, payload and the error verdict are asserted equal by SMT on every path.",
